@@ -545,5 +545,20 @@ class ProgBaseReq(ProgBase):
 generated.register(ProgBaseReq, 'ProgBaseReq')
 
 
+class ProgOwnStatus(ProgBase):
+    """Same interpreter; the status message is kept in a store of the subclass's own (as a subclass that writes it to a database
+    record would): the public ``status`` / ``set_status`` accessors are overridden and the base attribute is never written."""
+
+    @property
+    def status(self):
+        return self.__dict__.get('_status_record')
+
+    def set_status(self, status):
+        self.__dict__['_status_record'] = status
+
+
+generated.register(ProgOwnStatus, 'ProgOwnStatus')
+
+
 def outputs_valid_req(outputs):
     return isinstance(outputs.get('req'), int)
